@@ -78,6 +78,12 @@ def main():
         dup = re.search(r"DUPLICATE[^\n]*", r.stdout + r.stderr)
         if dup or m:
             seed = int(m.group(1)) if m else lo
+            # (with many seeds in flight several may fail and their output interleaves: the reported
+            # seed is run once more on its own, so that the recorded message is its own)
+            one = miri(seed, seed + 1, threads, per, rate)
+            dup1 = re.search(r"DUPLICATE[^\n]*", one.stdout + one.stderr)
+            if dup1:
+                dup = dup1
             p = write_replay(f"C19-ids-{seed}.json", {"property": "C19", "class": "C19/duplicate-connection-id", "kind": "violation", "mode": "miri", "seed": seed, "threads": threads, "per_thread": per, "preemption_rate": rate, "message": dup.group(0) if dup else "", "how_to_replay": f"MIRIFLAGS='-Zmiri-seed={seed} -Zmiri-preemption-rate={rate}' cargo +nightly miri run --offline -- {threads} {per}   (in /verif/miri-ids)"})
             print(f"  violation class=C19/duplicate-connection-id: {dup.group(0) if dup else ''} (Miri schedule seed {seed}, {threads} threads x {per} connections)")
             print(f"VIOLATION property=C19 replay={p}")
